@@ -79,7 +79,7 @@ func (TokenWorld) Generate(rng *rand.Rand, prop, tier string) any {
 	np := 1 + rng.IntN(4)
 	tagKeys := []string{"creator", "cluster", "k3", "k4", "k5", "k6", "k7"}
 	for i := 0; i < np; i++ {
-		p := Params{Kind: oneOf(rng, "create", "create", "create", "assign4", "assign6", "eflo-create"), Steps: 1 + rng.IntN(3)}
+		p := Params{Kind: oneOf(rng, "create", "create", "create", "assign4", "assign6", "eflo-create", "eflo-create"), Steps: 1 + rng.IntN(3)}
 		switch p.Kind {
 		case "create":
 			p.VSwitch = oneOf(rng, "vsw-a", "vsw-b")
@@ -123,7 +123,7 @@ func (TokenWorld) Generate(rng *rand.Rand, prop, tier string) any {
 	for i := 0; i < 60; i++ {
 		f := ""
 		if rng.Float64() < rate {
-			f = oneOf(rng, "hard", "hard", "throttle", "internal-before", "internal-after", "internal-after", "slow")
+			f = oneOf(rng, "hard", "hard", "throttle", "internal-before", "internal-after", "internal-after", "slow", "result-code")
 		}
 		sc.Faults = append(sc.Faults, f)
 	}
@@ -219,10 +219,7 @@ func (g *observedGen) GenerateKey(paramHash string) string {
 
 func (g *observedGen) PutBack(paramHash string, tok string) {
 	g.inner.PutBack(paramHash, tok)
-	w := g.w
-	if c, ok := w.tokenCanon[tok]; ok {
-		w.putBacks[c] = append(w.putBacks[c], &putBackEv{tok: tok, putSeq: w.run.S.SeqNo()})
-	}
+	g.w.run.Probe("token-put-back")
 }
 
 type world struct {
@@ -370,6 +367,16 @@ func (w *world) RoundTrip(req *http.Request) (*http.Response, error) {
 	case "internal-before":
 		w.run.Fault("wire.internal-error-before-effect")
 		return errResp(req, "InternalError"), nil
+	case "result-code":
+		// EFLO style failure: HTTP 200 with a non-zero result code in the body (other APIs: plain error)
+		if action == "CreateElasticNetworkInterface" {
+			w.run.Fault("wire.eflo-result-code")
+			body := `{"RequestId":"sim","Code":1013,"Message":"quota","Content":{}}`
+			return &http.Response{StatusCode: 200, Status: "200 OK", Header: http.Header{"Content-Type": []string{"application/json"}},
+				Body: io.NopCloser(bytes.NewBufferString(body)), Request: req, ProtoMajor: 1, ProtoMinor: 1}, nil
+		}
+		w.run.Fault("wire.hard-error")
+		return errResp(req, "InvalidParameter.Sim"), nil
 	}
 	// effect, idempotent per token
 	res, seen := w.effects[tok]
@@ -474,6 +481,13 @@ func (w *world) main() {
 						break
 					}
 					w.run.Probe("call-failed")
+					// the failed attempt's token is what a retry with these parameters must carry;
+					// recorded by the harness at the moment the call returned, whatever the client did
+					if tok := w.lastToken[me]; tok != "" {
+						if c, ok := w.tokenCanon[tok]; ok {
+							w.putBacks[c] = append(w.putBacks[c], &putBackEv{tok: tok, putSeq: w.run.S.SeqNo()})
+						}
+					}
 					simrt.Sleep(200 * time.Millisecond)
 				}
 			}
